@@ -242,6 +242,7 @@ func (w *World) mainProgStart(i int) {
 	w.ms.progIdx, w.ms.progStart = i, true
 	w.imu.Unlock()
 	raceEnable()
+	w.S.setEpoch(i)
 }
 
 //go:norace
